@@ -312,9 +312,15 @@ def main(argv=None):
     if tier == "thorough":
         for name, _fn in getattr(mod, "extra_phases", []):
             jobs += [(modname, tier, seed, s, NSHARDS, budget, name) for s in range(NSHARDS)]
-    mpctx = multiprocessing.get_context("fork")
-    with mpctx.Pool(min(NSHARDS, len(jobs))) as pool:
-        results = pool.map(_run_shard, jobs, chunksize=1)
+    if os.environ.get("VERIF_REPLAY_ONLY"):
+        # switch for experiments (regression of the committed inputs against seeded changes): no generation; the run then
+        # ends as a harness error on purpose (exit 2 unless a replay alarmed), so it can never pass for a registered check
+        jobs = []
+        results = []
+    else:
+        mpctx = multiprocessing.get_context("fork")
+        with mpctx.Pool(min(NSHARDS, len(jobs))) as pool:
+            results = pool.map(_run_shard, jobs, chunksize=1)
     errs = [r[1] for r in results if r[0] == "err"]
     if errs:
         print("HARNESS-ERROR property=%s\n%s" % (prop, "\n".join(errs[:2])), file=sys.stderr)
@@ -408,7 +414,7 @@ def main(argv=None):
         print("NOT-EVALUATED: %d cases: py_gql refused a schema that is valid by construction (C11 / C13 decide that)" % refused)
     print("%s tier=%s seed=%d evaluations=%d distinct_nontrivial=%d unspecified=%d excluded_known=%d wall=%.1fs"
           % (prop, tier, seed, evaluations, len(nontrivial), unspecified, excluded_known, time.time() - t0))
-    if evaluations < 1 or len(nontrivial) < 2:
+    if (evaluations < 1 or len(nontrivial) < 2) and not (os.environ.get("VERIF_REPLAY_ONLY") and lines):
         print("HARNESS-ERROR property=%s: generator produced too few non-trivial cases" % prop, file=sys.stderr)
         return 2
     for sig, detail, path in lines:
